@@ -13,7 +13,32 @@ Direct oracle (no Lean): for every particle after every call: prior density (sci
 RECOMPUTED by a loss object built from scratch (fresh model, parameters bound by name in a different order) equals
 abc.dist[i] and is < the tolerance of the generation that produced it; weight positive and finite (= prior density
 for rejection ABC); tolerances never increase under quantile scheduling (incl. across continue calls).
+
+HISTORIES, FORMS, KEPT RESULTS (STRENGTHEN_GUIDE families 1-5).
+ * the tolerance is handed over in the FORM the call names (`tol_form`): Python float / int, numpy float64 / float32 /
+   int64 scalars, np.inf, `abc.next_tol`, and for schedules list / tuple / float ndarray / integer ndarray / list of ints
+   (integer forms: rounded up for a fresh run, rounded down - when that keeps 90% of the value - for a continued one).
+   Every stored distance is compared with the tolerance RECORDED for its generation (`abc.tolerances`) and with the
+   tolerance actually APPLIED (what `_perform_generation` was handed, seen by the harness recorder); recorded and applied
+   must be the same number in every generation, and `final_tol` the last of them.
+ * sequences on one ABC object are get -> continue* and also get -> ... -> a FRESH get -> continue (nothing of the
+   earlier run may survive the fresh call); a second ABC object sharing the loss object and the Parameter objects may
+   run in between; at the end a `copy.deepcopy` of the ABC object is continued one generation further and judged by the
+   same oracle while the original's arrays must stay what they were.
+ * the arrays read after each call (`res`, `dist`, `w`, `tolerances`, `acceptance_rate`) are KEPT together with copies;
+   `tolerances` / `acceptance_rate` are re-created by every call and `res` / `dist` / `w` by every fresh
+   `get_posterior_sample`, so the kept ones must not change afterwards (a continued run overwrites `res` / `dist` / `w` in
+   place - that is the code as it is, tagged and not judged).
+ In the Lean model (`ABC.runCall`) a call is a function of (its arguments, the state left by the previous call, the trial
+ stream).  `C17.get_forgets_state`: a fresh `get_posterior_sample` reads nothing of the previous state but `numParam` (and
+ carries `next_tol` over when `q` is None).  `C17.continue_reads_only_N_finalTol`: a continued run reads of the previous
+ state exactly `N` and `final_tol` (its two asserts); the stored population `res` / `w` / `dist` enters only THROUGH THE TRIAL
+ STREAM - the real code resamples the proposals from `res_old` with `w_old` and computes `w2 = sum w_old K(res_old; x)`,
+ both recorded per trial and handed to the model - and through nothing else (`genLoop_ignores_initial_dist`: the first
+ tolerance of a call is the caller's, later ones are quantiles of distances produced in this very call).  The tolerance is
+ a rational (or +inf) whatever Python type carried it.
 """
+import copy
 import json
 import logging
 import math
@@ -30,16 +55,21 @@ LEAN = {"module": "Pygom.Props.C17",
         "required": ["Pygom.C17.accepted_particle", "Pygom.C17.run_particles", "Pygom.C17.weights_pos_finite",
                      "Pygom.C17.quantile_tolerances_step", "Pygom.C17.quantile_tolerances_antitone",
                      "Pygom.C17.quantileLinear_le_maxL", "Pygom.C17.par_order_binds_by_name_partial",
-                     "Pygom.C17.par_order_direct_loss_counterexample", "Pygom.C17.parOrderBy_binds_by_name"]}
+                     "Pygom.C17.par_order_direct_loss_counterexample", "Pygom.C17.parOrderBy_binds_by_name",
+                     "Pygom.C17.get_forgets_state", "Pygom.C17.continue_reads_only_N_finalTol", "Pygom.C17.genLoop_ignores_initial_dist"]}
 BUDGET = {"quick": {"runs": 72, "direct": 10, "malformed": 8, "N": (30, 45), "Gmax": 3},
-          "thorough": {"runs": 1000, "direct": 80, "malformed": 40, "N": (30, 60), "Gmax": 4}}
+          "thorough": {"runs": 800, "direct": 80, "malformed": 40, "N": (30, 60), "Gmax": 4}}
 RULE = ("real ABC runs on SIR_norm/SIR/SIS/SEIR with SquareLoss/NormalLoss/PoissonLoss, 1-3 inferred parameters (+ optionally an "
         "inferred initial state, a population constraint), uniform/gamma/normal priors, log-scale flags, Parameter list in "
         "random order; schedules: rejection, tolerance list, quantile, MNN (M<N-1 and M=N-1), followed by 0-2 "
         "continue_posterior_sample calls (next_tol, shrunk final_tol, tolerance list, deliberately too large); every run "
         "seeded from the case.  Plus loss objects built directly (target_param None / other order) and malformed argument "
         "sets.  A case is non-trivial when it has a generation with a finite tolerance and every such generation rejected at "
-        "least one trial (a first generation with tol=inf accepts every prior draw by construction).")
+        "least one trial (a first generation with tol=inf accepts every prior draw by construction).  Tolerances are handed over "
+        "as float / int / numpy float64, float32, int64 scalars, np.inf, abc.next_tol, list / tuple / float array / int array / "
+        "list of ints (tags tol-form:*); 30% of the sequences contain a second FRESH get_posterior_sample (+ continue) on the same "
+        "object; a quarter let a second ABC object on the same loss object run in between; 35% end with a deepcopy of the ABC object "
+        "continued one generation (tag deepcopy-continued); the arrays read after every call are kept and compared later.")
 ASSUMPTIONS = ["np.quantile(l, q) <= max(l) (proved for numpy's linear-interpolation definition, quantileLinear_le_maxL; the real "
                "np.quantile is compared with that definition to 1e-12 on every generation)",
                "the perturbation kernel density (scipy multivariate_normal.pdf) is positive: w2 > 0 (checked on every accepted trial)",
@@ -51,6 +81,8 @@ TRUSTED = ["harness recorders (instance-level wrappers of Parameter.density, obj
            "QuantileBelowMax Q is the only hypothesis on np.quantile in the Lean theorems"]
 
 MODELS = ["SIR_norm", "SIR", "SIS", "SEIR"]
+SCALAR_FORMS = ["float", "float", "int", "int", "np_float64", "np_int64", "np_float32"]
+LIST_FORMS = ["list", "list", "tuple", "array_float", "array_int", "list_int"]
 MAX_TRIALS = 3000
 MAX_SECONDS = 15.0
 
@@ -117,6 +149,23 @@ def _schedule(rng, budget, allow_continue=True):
             calls.append(c)
             if style == "too_big":
                 break
+    # --- a FRESH get_posterior_sample later on the same object (and possibly one more continue after it)
+    if allow_continue and calls[-1]["tol"] != {"too_big": True} and rng.random() < 0.3:
+        G = rng.randint(2, budget["Gmax"])
+        again = {"cont": False, "N": N, "M": first["M"] if rng.random() < 0.5 else None, "G": G, "q": rng.choice([0.4, 0.5, 0.6]),
+                 "tol": rng.choice([{"pilot": 0.7}, {"pilot": 0.8}, "inf"])}
+        calls.append(again)
+        if rng.random() < 0.5:
+            calls.append({"cont": True, "N": N, "M": again["M"], "G": rng.randint(1, 2), "q": rng.choice([0.4, 0.5]), "tol": "next_tol"})
+    # --- the form in which each tolerance is handed over
+    for c in calls:
+        t = c["tol"]
+        if isinstance(t, dict) and ("pilot_list" in t or "shrink_list" in t):
+            c["tol_form"] = rng.choice(LIST_FORMS)
+        elif isinstance(t, dict) and ("pilot" in t or "shrink" in t):
+            c["tol_form"] = rng.choice(SCALAR_FORMS)
+        else:
+            c["tol_form"] = "asis"
     return calls
 
 
@@ -157,6 +206,7 @@ def gen_run(rng, budget, direct=False):
             "noise": rng.choice(["none", "noisy"]), "noise_seed": rng.getrandbits(31),
             "params": plist, "constraint": constraint, "seed": rng.getrandbits(31),
             "calls": _schedule(rng, budget, allow_continue=not direct)}
+    case["extras"] = {"second_abc": (not direct) and rng.random() < 0.25, "deepcopy": rng.random() < 0.35}
     if direct:
         names = [p["name"] for p in plist]
         how = rng.choice(["none", "reversed", "same"])
@@ -177,7 +227,8 @@ def gen_run(rng, budget, direct=False):
         else:
             case["direct"] = {"target_param": list(names)}
         N = case["calls"][0]["N"]
-        case["calls"] = [{"cont": False, "N": N, "M": None, "q": rng.choice([0.5, 0.6, 0.75]), "G": 2, "tol": "inf"}]
+        case["calls"] = [{"cont": False, "N": N, "M": None, "q": rng.choice([0.5, 0.6, 0.75]), "G": 2,
+                          "tol": rng.choice(["inf", {"pilot": 0.8}]), "tol_form": rng.choice(SCALAR_FORMS)}]
     return case
 
 
@@ -368,6 +419,11 @@ class Recorder:
 
     def uninstall(self):
         self.pgabc.dmvnorm = self._orig["dmvnorm"]
+        for o_, name in [(self.abc, "_perform_generation"), (self.abc.obj, "cost")] + [(p, "density") for p in self.abc.parameters]:
+            try:
+                delattr(o_, name)             # instance attribute set by install(): the class method shows again
+            except AttributeError:
+                pass
 
     def trials_of(self, entry):
         """parse the flat event list of one _perform_generation call into trials"""
@@ -409,6 +465,43 @@ def resolve_tol(spec, pilot, abc):
         if "too_big" in spec:
             return (ft + 0.5 * abs(ft) + 1.0) if math.isfinite(ft) else np.inf
     raise ValueError(spec)
+
+
+def apply_form(tol, form, cont, tags):
+    """hand the (float / list of floats) tolerance over in the named form.  Integer forms change the VALUE: rounded up for a
+    fresh run (a looser first tolerance), rounded down for a continued run and only when that keeps >= 90% of every entry
+    (the run must stay feasible and `tol <= final_tol`); otherwise the float form is used and the fallback tagged."""
+    if form in (None, "asis") or (not hasattr(tol, "__len__") and not math.isfinite(float(tol))):
+        return tol
+    def to_int(v):
+        k = int(math.floor(v)) if cont else int(math.ceil(v))
+        return k if (k > 0 and (not cont or k >= 0.9 * v)) else None
+    if hasattr(tol, "__len__"):
+        vals = [float(v) for v in tol]
+        if form in ("array_int", "list_int"):
+            iv = [to_int(v) for v in vals]
+            if any(k is None for k in iv):
+                tags.append("tol-form:%s->float(fallback)" % form)
+                return vals
+            tags.append("tol-form:" + form)
+            return np.array(iv, dtype=int) if form == "array_int" else iv
+        tags.append("tol-form:" + form)
+        return tuple(vals) if form == "tuple" else (np.array(vals, dtype=float) if form == "array_float" else vals)
+    v = float(tol)
+    if form in ("int", "np_int64"):
+        k = to_int(v)
+        if k is None:
+            tags.append("tol-form:%s->float(fallback)" % form)
+            return v
+        tags.append("tol-form:" + form)
+        return k if form == "int" else np.int64(k)
+    tags.append("tol-form:" + form)
+    if form == "np_float64":
+        return np.float64(v)
+    if form == "np_float32":
+        f = np.float32(v)
+        return f if (not cont or float(f) <= v) else np.float32(np.nextafter(f, np.float32(-np.inf)))
+    return v
 
 
 def tol_json(tol):
@@ -500,6 +593,7 @@ def run_case(case):
     rec = Recorder(abc, pgmod, nparam)
     rec.install()
     lean_calls, stream, py_calls = [], [], []
+    kept, run_id = [], 0
     history_tols = []
     nontrivial = True
     finite_gens = 0
@@ -507,7 +601,9 @@ def run_case(case):
         for ci, call in enumerate(case["calls"]):
             n_before = len(rec.slots)
             tol = resolve_tol(call["tol"], pilot, abc) if not (call["cont"] and not hasattr(abc, "res")) else resolve_tol({"pilot": 0.5}, pilot, abc)
+            tol = apply_form(tol, call.get("tol_form"), call["cont"], tags)
             prev_final = float(abc.final_tol) if hasattr(abc, "final_tol") else None
+            tol_snap = [float(v) for v in tol] if hasattr(tol, "__len__") else None
             err = None
             try:
                 if call["cont"]:
@@ -528,8 +624,10 @@ def run_case(case):
                 return {"nontrivial": False, "mismatches": mism, "violations": viol, "tags": tags}
             slots = rec.slots[n_before:]
             N, G = call["N"], call["G"]
+            if tol_snap is not None and [float(v) for v in tol] != tol_snap:
+                tags.append("input-modified:tol")        # a side effect alone is not a violation of C17
             tags.append("call:%s:G=%d:%s%s%s" % ("continue" if call["cont"] else "get", G, "q" if call["q"] is not None else
-                                                 ("list" if isinstance(tol, list) else "scalar"),
+                                                 ("list" if hasattr(tol, "__len__") else "scalar"),
                                                  ":M" if call["M"] is not None else "", ":" + err if err else ""))
             # trials, per generation
             qtable = []
@@ -569,12 +667,39 @@ def run_case(case):
             if not call["cont"]:
                 history_tols = []
             history_tols += [float(v) for v in abc.tolerances]
+            # ---------------- kept results (family 1) ------------------------------------------------------------
+            if call["cont"]:
+                # a continued run writes the new population into the arrays of the run it continues: the code as it is
+                if any(nm in ("res", "dist", "w") and run == run_id for run, nm, _r, _c, _ci in kept):
+                    tags.append("continue-overwrites-res-dist-w-in-place(not judged)")
+                kept = [e for e in kept if not (e[1] in ("res", "dist", "w") and e[0] == run_id)]
+            else:
+                run_id += 1
+            check_kept(kept, viol, sig_class)
+            for nm in ("res", "dist", "w", "tolerances", "acceptance_rate"):
+                kept.append((run_id, nm, getattr(abc, nm), np.array(getattr(abc, nm), dtype=float, copy=True), ci))
             # ---------------- direct oracle on the attributes after this call (no Lean) ----------------------
-            oracle(case, ci, call, abc, rec_cost, plist, history_tols, prev_final, sig_class, viol, tags, stream)
+            oracle(case, ci, call, abc, rec_cost, plist, history_tols, prev_final, sig_class, viol, tags, stream,
+                   applied=[float(g["tol"]) for g in gens])
             if viol:
                 break
+            # ---------------- a second ABC object on the same loss object and Parameter objects runs in between ----
+            if ci == 0 and (case.get("extras") or {}).get("second_abc") and len(case["calls"]) > 1:
+                try:
+                    abc2 = pgabc.ABC(obj, parameters, constraint=tuple(case["constraint"]) if case.get("constraint") else None)
+                    abc2.get_posterior_sample(N=max(10, call["N"] // 3), tol=float(np.quantile(pilot, 0.6)), G=1)
+                    tags.append("second-abc-object-on-the-same-loss")
+                except _Budget:
+                    tags.append("trial-budget-exceeded")
+                    return {"nontrivial": False, "mismatches": mism, "violations": viol, "tags": tags}
+                except Exception as exc:
+                    tags.append("second-abc:raised:" + type(exc).__name__)
     finally:
         rec.uninstall()
+    if not viol:
+        check_kept(kept, viol, sig_class)
+    if not viol and py_calls and py_calls[-1]["err"] is None and (case.get("extras") or {}).get("deepcopy"):
+        deepcopy_probe(case, abc, rec_cost, plist, sig_class, viol, tags, stream)
 
     # --- model <-> code -------------------------------------------------------------------------------------
     if any(tr["cost"] is not None and math.isinf(tr["cost"]) and tr["cost"] < 0 for tr in stream):
@@ -602,7 +727,59 @@ def run_case(case):
             "mismatches": mism, "violations": viol, "tags": tags, "sample": sample}
 
 
-def oracle(case, ci, call, abc, rec_cost, plist, history_tols, prev_final, sig_class, viol, tags, stream):
+def check_kept(kept, viol, sig_class):
+    """arrays read after an earlier call (and not legitimately overwritten by a continued run) still hold what they held"""
+    for run, nm, ref, cp, ci in kept:
+        now = np.asarray(ref, dtype=float)
+        if now.shape != cp.shape or not np.array_equal(now, cp, equal_nan=True):
+            viol.append({"what": "abc.%s as read after call %d was changed by a later call that creates its own arrays" % (nm, ci + 1),
+                         "signature": "kept-result-changed:%s:%s" % (nm, sig_class), "detail": "%s -> %s" % (cp.ravel()[:6].tolist(), now.ravel()[:6].tolist())})
+            return
+
+
+def deepcopy_probe(case, abc, rec_cost, plist, sig_class, viol, tags, stream):
+    """copy.deepcopy of the ABC object, continued one generation further: the copy is judged by the same direct oracle, the
+    original's arrays must stay what they were"""
+    N = int(abc.N)
+    keep = {nm: np.array(getattr(abc, nm), dtype=float, copy=True) for nm in ("res", "dist", "w", "tolerances")}
+    try:
+        cp = copy.deepcopy(abc)
+    except Exception as exc:
+        tags.append("deepcopy-unsupported:" + type(exc).__name__)
+        return
+    count = {"n": 0, "t0": time.time()}
+    ocost = cp.obj.cost
+
+    def guarded(*a, **k):
+        count["n"] += 1
+        if count["n"] > MAX_TRIALS // 2 or (count["n"] % 50 == 0 and time.time() - count["t0"] > MAX_SECONDS / 2):
+            raise _Budget()
+        return ocost(*a, **k)
+    cp.obj.cost = guarded
+    np.random.seed(case["seed"] ^ 0x3C3C3C)
+    tolc = float(np.quantile(np.asarray(abc.dist, dtype=float), 0.75))
+    prev_final = float(abc.final_tol)
+    try:
+        cp.continue_posterior_sample(N=N, tol=tolc, G=1, q=0.5)
+    except _Budget:
+        tags.append("deepcopy:trial-budget-exceeded")
+        return
+    except Exception as exc:
+        tags.append("deepcopy:raised:" + type(exc).__name__)
+        return
+    tags.append("deepcopy-continued")
+    for nm, was in keep.items():
+        now = np.asarray(getattr(abc, nm), dtype=float)
+        if now.shape != was.shape or not np.array_equal(now, was, equal_nan=True):
+            viol.append({"what": "abc.%s of the ORIGINAL changed when a deepcopy of the ABC object was continued" % nm,
+                         "signature": "kept-result-changed:deepcopy:%s:%s" % (nm, sig_class), "detail": ""})
+            return
+    call = {"N": N, "G": 1, "q": 0.5, "cont": True, "M": None}
+    oracle(dict(case, calls=[call]), 0, call, cp, rec_cost, plist, [float(v) for v in cp.tolerances], prev_final, sig_class + ":deepcopy", viol, tags, stream,
+           applied=[tolc])
+
+
+def oracle(case, ci, call, abc, rec_cost, plist, history_tols, prev_final, sig_class, viol, tags, stream, applied=None):
     N = call["N"]
     res = np.atleast_2d(np.asarray(abc.res, dtype=float))
     dist = np.asarray(abc.dist, dtype=float)
@@ -617,6 +794,14 @@ def oracle(case, ci, call, abc, rec_cost, plist, history_tols, prev_final, sig_c
         viol.append({"what": "final_tol is not the last tolerance", "signature": "final-tol:" + sig_class,
                      "detail": "%r vs %r" % (abc.final_tol, tols)})
     gen_tol = tols[-1]
+    gen_applied = None
+    if applied is not None:
+        # the tolerance RECORDED for each generation is the tolerance that generation APPLIED (harness recorder: the argument
+        # _perform_generation received), whatever Python type the caller's tolerance had
+        if len(applied) != len(tols) or any(float(a) != float(b) for a, b in zip(applied, tols)):
+            viol.append({"what": "abc.tolerances does not record the tolerances the generations applied", "signature": "tolerance-recorded-not-applied:" + sig_class,
+                         "detail": "recorded %s (dtype %s) applied %s ; tol argument form %s" % (tols, getattr(abc.tolerances, "dtype", "?"), applied, call.get("tol_form"))})
+        gen_applied = float(applied[-1])
     first_fresh = (not call["cont"]) and call["G"] == 1
     scratch = rec_cost.scratch()      # built from scratch for this check
     for i in range(N):
@@ -639,8 +824,12 @@ def oracle(case, ci, call, abc, rec_cost, plist, history_tols, prev_final, sig_c
                              i, dict(zip([p["name"] for p in plist], [float(v) for v in res[i]])), float(dist[i]), c, [p["name"] for p in plist])})
             return
         if not (dist[i] < gen_tol):
-            viol.append({"what": "stored distance not below the tolerance of its generation", "signature": "dist-not-below-tolerance:" + sig_class,
-                         "detail": "particle %d dist=%r tolerance=%r" % (i, float(dist[i]), gen_tol)})
+            viol.append({"what": "stored distance not below the tolerance recorded for its generation (abc.tolerances[-1])", "signature": "dist-not-below-tolerance:" + sig_class,
+                         "detail": "particle %d dist=%r recorded tolerance=%r applied=%r tol argument form %s" % (i, float(dist[i]), gen_tol, gen_applied, call.get("tol_form"))})
+            return
+        if gen_applied is not None and not (dist[i] < gen_applied):
+            viol.append({"what": "stored distance not below the tolerance its generation applied", "signature": "dist-not-below-applied-tolerance:" + sig_class,
+                         "detail": "particle %d dist=%r applied tolerance=%r" % (i, float(dist[i]), gen_applied)})
             return
         if not (w[i] > 0 and math.isfinite(w[i])):
             viol.append({"what": "weight not positive and finite", "signature": "weight-nonpositive:" + sig_class,
@@ -663,7 +852,8 @@ def oracle(case, ci, call, abc, rec_cost, plist, history_tols, prev_final, sig_c
         viol.append({"what": "continued run starts above the previous final tolerance", "signature": "tolerance-increased:continue:" + sig_class,
                      "detail": "first %r previous final %r" % (tols[0], prev_final)})
     # the whole history since the last fresh run never increases when every call used a quantile (or had one generation)
-    if all((c["q"] is not None or c["G"] == 1) for c in case["calls"][:ci + 1]):
+    since = max([k for k in range(ci + 1) if not case["calls"][k]["cont"]] or [0])     # the last fresh get_posterior_sample
+    if all((c["q"] is not None or c["G"] == 1) for c in case["calls"][since:ci + 1]):
         for a, b in zip(history_tols, history_tols[1:]):
             if not (b <= a):
                 viol.append({"what": "tolerance increased along a get/continue sequence", "signature": "tolerance-increased:sequence:" + sig_class,
